@@ -319,6 +319,7 @@ check_image(const rec_t *r, const img_desc_t *d, const size_t *W, const size_t *
   free(lens);
   n_images++;
   for (i = 0; i < r->nacks; i++) {
+    if (r->acks[i].empty) continue;
     if (r->acks[i].j_begin < d->t) started |= 1u << i;
     if (r->acks[i].j_end <= d->t && r->acks[i].status == LDB_OK) {
       acked |= 1u << i;
@@ -678,6 +679,7 @@ main(int argc, char **argv) {
   add_op("D0!");
   add_op("F");
   add_op("O");
+  add_op("B[]!");   /* empty batch with sync: the "sync barrier" idiom; a 12-byte log record */
   if (drv_opt_long("wide", 0)) {
     add_op("C");
     add_op("M7");
